@@ -302,6 +302,43 @@ def main():
                             {"start": start, "input": s, "shipped": ra, "fresh": rb,
                              "how": "measured._parser.Parser().parse(input, start=start) vs the parser generated by `python -m lark.tools.standalone --start unit --start quantity measured.lark`"})
     c.cov["accepted"] = acc; c.cov["rejected"] = rej
+    # ---------------- one parser object used for two parses that overlap in time (another thread parses, with the other start symbol, while
+    # this one is in the middle of its parse): each still answers as the parser built from the grammar does
+    import threading
+    def nested(P, modfile, a, b, k):
+        reached, resume, cnt, res_a = threading.Event(), threading.Event(), [0], [None]
+        def glob(frame, event, arg):
+            if event == "call" and frame.f_code.co_filename == modfile:
+                cnt[0] += 1
+                if cnt[0] == k: reached.set(); resume.wait(5)
+            return None
+        def body():
+            sys.settrace(glob)
+            try: res_a[0] = run_parser(P, *a)
+            finally:
+                sys.settrace(None); reached.set()
+        t = threading.Thread(target=body, daemon=True); t.start(); reached.wait(5)
+        res_b = run_parser(P, *b)
+        resume.set(); t.join(5)
+        return res_a[0], res_b, cnt[0]
+    shipped_file = os.path.join(SRCDIR, "_parser.py")
+    pairs_ = [(("unit", "m/s"), ("quantity", "5 m")), (("quantity", "2.5 kg m^2/s^2"), ("unit", "K")), (("unit", "kg⋅m²"), ("unit", "s⁻¹")),
+              (("quantity", "5 m"), ("quantity", "7 s")), (("unit", "m//s"), ("quantity", "5 m")), (("quantity", "5"), ("unit", "m s"))]
+    nn = 0
+    for P_, file_ in ((ShippedP, shipped_file),) + (((PkgP, pkg_parser.__file__),) if PkgP is not None else ()):
+        for a_, b_ in pairs_:
+            want_a, want_b = run_parser(FreshP, *a_), run_parser(FreshP, *b_)
+            k_, total = 1, 2
+            while k_ <= total and k_ <= 400:
+                ra_, rb_, total = nested(P_, file_, a_, b_, k_)
+                nn += 1
+                c.count(["overlapping-parses", a_, b_, k_, file_ == shipped_file], nontrivial=True)
+                if ra_ != want_a or rb_ != want_b:
+                    c.violation("differs:overlapping-parses", f"parse{a_} paused at its call number {k_} inside _parser.py while the same parser object parsed {b_}: got {ra_[:2]} and {rb_[:2]}, "
+                                f"the parser built from the grammar gives {want_a[:2]} and {want_b[:2]}", {"first": a_, "second": b_, "paused_at_call": k_, "shipped": [ra_, rb_], "fresh": [want_a, want_b]})
+                    break
+                k_ += 1 if c.tier != "quick" else 3
+    c.cov["overlapping_parses"] = nn
     # ---------------- the character-level model (Model/Lex.v + Model/LR.v) against the shipped parser: text -> tree / exception class
     import lexgen
     try:
